@@ -60,6 +60,7 @@ COMPONENTS = {
         "remote peer (ref/p2p + ref/merkle + ref/txmodel, synthetic regtest-difficulty chain)",
         "TCP transport (in-memory ordered byte stream with fragmentation, delay, EOF, corruption)",
         "socket module, time.time, sleep, randint (patched module-level names of buidl.network)",
+        "buidl.block.hash256 during the pow_edge observation only (digest chosen as target-1 / target / target+1: the boundary real SHA-256 cannot be steered to)",
     ],
 }
 
@@ -1318,6 +1319,28 @@ def run_step(sess, cl, peer, step, prop):
                 if blk.check_pow() != rp.pow_ok(want):
                     fail("C17", "M3", "pow_verdict_after_edit", f"check_pow() = {not rp.pow_ok(want)} for header {want.hex()}, consensus says {rp.pow_ok(want)}")
                 tr.probe("header_obs_pow_" + str(rp.pow_ok(want)))
+            elif act == "pow_edge":
+                # the one header state real SHA-256 cannot be steered into: hash == target (and its two neighbours). For this observation
+                # only, the digest function the header code calls (buidl.block.hash256) is a stub returning the chosen 256-bit value.
+                t, neg, ovf = rp.compact_to_target(m["bits"])
+                if neg or ovf or t == 0 or t >= 2**256:
+                    tr.probe("pow_edge_skipped_illegal_target")
+                    continue
+                import buidl.block as bblock
+                tr.fault("hash_stub_pow_edge")
+                for delta in (-1, 0, 1):
+                    v = t + delta
+                    if not 0 <= v < 2**256:
+                        continue
+                    real_h = bblock.hash256
+                    bblock.hash256 = lambda _b, v=v: v.to_bytes(32, "little")
+                    try:
+                        got = blk.check_pow()
+                    finally:
+                        bblock.hash256 = real_h
+                    tr.oracle("M3_pow_edge")
+                    if bool(got) != (v <= t):
+                        fail("C17", "M3", "pow_verdict_at_target" if delta == 0 else "pow_verdict_next_to_target", f"check_pow() = {got} for a header with bits {m['bits'].hex()} whose hash is target{delta:+d}; consensus (hash <= target) says {v <= t}")
             else:
                 tr.fault("header_edit_" + act)
                 if act == "nonce":
@@ -1676,7 +1699,7 @@ def gen_step(ch, op, chain_cfg, tier, enabled, p_fault):
         acts = []
         for _ in range(ch.randrange(1, 7)):
             acts.append("obs" if ch.chance(0.45) else ch.choice(["nonce", "nonce", "nonce", "time", "version", "root", "prev", "bits"]))
-        s["acts"] = acts + ["obs"]
+        s["acts"] = acts + ["obs"] + (["pow_edge"] if ch.chance(0.5) else [])
     elif op == "proof_edits":
         s["trigger"] = "-"
         s["blk"] = ch.randrange(0, 16)
